@@ -112,7 +112,11 @@ func (u *Universe) Render() string {
 		}
 		b.WriteString("}\n\n")
 	}
-	fmt.Fprintf(&b, "service Svc {\n  %s Call(1: %s req)\n", TypeIDL(u.Root), TypeIDL(u.Root))
+	argID := u.ArgID
+	if argID == 0 {
+		argID = 1
+	}
+	fmt.Fprintf(&b, "service Svc {\n  %s Call(%d: %s req)\n", TypeIDL(u.Root), argID, TypeIDL(u.Root))
 	for i, x := range u.Extra {
 		fmt.Fprintf(&b, "  %s M%d(1: %s req)\n", TypeIDL(x), i, TypeIDL(x))
 	}
@@ -156,12 +160,12 @@ func Compile(idl string, opts thrift.Options) (*Compiled, error) {
 	}
 	c := &Compiled{IDL: idl, Svc: svc, Fn: fn, Req: fn.Request(), Resp: fn.Response()}
 	if c.Req != nil && c.Req.Struct() != nil {
-		if f := c.Req.Struct().FieldById(1); f != nil {
-			c.Root = f.Type()
+		if fs := c.Req.Struct().Fields(); len(fs) == 1 {
+			c.Root = fs[0].Type()
 		}
 	}
 	if c.Root == nil {
-		return nil, fmt.Errorf("request descriptor has no field 1")
+		return nil, fmt.Errorf("request descriptor has no single argument")
 	}
 	for i := 0; ; i++ {
 		fx, err := svc.LookupFunctionByMethod(fmt.Sprintf("M%d", i))
